@@ -21,11 +21,13 @@ def build_interp(ctx_dir=None):
             # keep the directory small
             olds = sorted((os.path.getmtime(os.path.join(vlib.BUILD, "li", f)), f)
                           for f in os.listdir(os.path.join(vlib.BUILD, "li")) if f.startswith("lib_interp-"))
-            for _, f in olds[:-4]:
-                try:
-                    os.remove(os.path.join(vlib.BUILD, "li", f))
-                except OSError:
-                    pass
+            now = __import__("time").time()
+            for mt, f in olds[:-12]:
+                if now - mt > 7200:      # never remove a binary a concurrent check may be running
+                    try:
+                        os.remove(os.path.join(vlib.BUILD, "li", f))
+                    except OSError:
+                        pass
     return exe
 
 
